@@ -832,7 +832,7 @@ func runTape(t *testing.T, cfg cfgT, rounds []roundT, tape []byte) (res *harness
 		}
 		s.joinDone()
 		h.muAddr = h.pool.VerifMu()
-		h.oracle("init", true)
+		h.oracle("init", 2)
 
 		var clients []*client
 		for i := 0; i < cfg.Clients; i++ {
@@ -874,7 +874,7 @@ func runTape(t *testing.T, cfg cfgT, rounds []roundT, tape []byte) (res *harness
 				}
 				c.resurrect = nil
 			}
-			h.oracle("round", false)
+			h.oracle("round", 1)
 			if h.violated() || h.stopped {
 				continue
 			}
@@ -884,7 +884,23 @@ func runTape(t *testing.T, cfg cfgT, rounds []roundT, tape []byte) (res *harness
 				if !h.settle("settle") {
 					break
 				}
-				h.oracle("settle", true)
+				h.oracle("settle", 2)
+			}
+			if (r.Settle > 1 || last) && !h.violated() {
+				// full pass: an empty block on the same state makes the pool reset, i.e. run promotion (and with it
+				// the per-account queue cap) for EVERY queued account; demotions into the queue (removeTx,
+				// demoteUnexecutables) are otherwise only capped when that account is promoted next
+				c := &client{id: 99}
+				s.GoUser("harness:0:fullpass", func() { h.headOp(c, opT{Kind: 7, A: 3, D: 0}) }, c)
+				if !h.settle("fullpass") {
+					break
+				}
+				h.reorgTick()
+				if !h.settle("fullpass") {
+					break
+				}
+				s.joinDone()
+				h.oracle("fullpass", 3)
 			}
 		}
 		if h.violated() {
@@ -905,7 +921,7 @@ func runTape(t *testing.T, cfg cfgT, rounds []roundT, tape []byte) (res *harness
 			return
 		}
 		s.joinDone()
-		h.oracle("stop", false)
+		h.oracle("stop", 1)
 		for _, c := range clients {
 			if len(c.log) > 0 {
 				h.sample = append(h.sample, fmt.Sprintf("c%d: %s", c.id, strings.Join(c.log, "; ")))
